@@ -351,7 +351,7 @@ def run_ibd_store(res, tier, seed):
     g = R.dec_block(b.GENESIS)[0]
     sat = (R.TWO256 - 1).to_bytes(32, "big")
     try:
-        for k in ([499] if tier == "quick" else [499, 999, 498, 500]):
+        for k in ([499, 500] if tier == "quick" else [499, 500, 999, 498, 1000, 1499]):
             path = os.path.join(env.fresh_subdir("c18store"), "chain.db")
             with env.quiet():
                 store = BS.BlockStore(path)
@@ -395,7 +395,7 @@ def run_ibd_store(res, tier, seed):
                 res.fail("ibd", "ibd-exception-escaped", net.escaped[0][1], {"ibd_store": k})
     finally:
         BS.DefaultBlockStore.instance = old_default
-    res.sample({"bulk_download_then_relayed_checkpoint_block_then_restart": "k = 499 (quick) / 499, 999, 498, 500"})
+    res.sample({"bulk_download_then_relayed_block_then_restart": "k = 499, 500 (quick) / 499, 500, 999, 498, 1000, 1499"})
 
 
 def run_recorded(res, tier, seed):
